@@ -286,12 +286,31 @@ def run(args, files, keep=False, stdin=None, sim=None, timeout=None):
     return r
 
 
-def run_subprocess(args, files, timeout=120, env_extra=None):
-    """Run `python -m cutadapt` as a real process."""
+START_METHOD_MAIN = """import multiprocessing
+import sys
+
+if __name__ == "__main__":
+    multiprocessing.set_start_method(sys.argv[1])
+    from cutadapt.cli import main_cli
+
+    sys.argv = ["cutadapt"] + sys.argv[2:]
+    main_cli()
+"""
+
+
+def run_subprocess(args, files, timeout=120, env_extra=None, start_method=None):
+    """Run `python -m cutadapt` as a real process (start_method: run it with that multiprocessing start method -
+    'spawn' is the default on macOS/Windows, 'forkserver' the coming default on Linux)."""
     d = tempfile.mkdtemp(prefix="s", dir=scratch_root())
     for n, c in files.items():
         with open(os.path.join(d, n), "wb") as f:
             f.write(c.encode("ascii") if isinstance(c, str) else c)
+    command = [sys.executable, "-m", "cutadapt"]
+    if start_method:
+        with open(os.path.join(d, "_start_method_main.py"), "w") as f:
+            f.write(START_METHOD_MAIN)
+        files = dict(files, **{"_start_method_main.py": b""})
+        command = [sys.executable, "_start_method_main.py", start_method]
     env = dict(os.environ)
     if env_extra:
         env.update(env_extra)
@@ -299,7 +318,7 @@ def run_subprocess(args, files, timeout=120, env_extra=None):
     r.timed_out = False
     try:
         p = subprocess.run(
-            [sys.executable, "-m", "cutadapt"] + [str(a) for a in args],
+            command + [str(a) for a in args],
             cwd=d, env=env, stdout=subprocess.PIPE, stderr=subprocess.PIPE, timeout=timeout,
             stdin=subprocess.DEVNULL,
         )
